@@ -23,6 +23,8 @@ CONFIGS = [
     {"name": "ned3", "num_expanded_year_digits": 3},
     {"name": "basic_only", "allow_only_basic": True},
     {"name": "assume_and_unknown", "assumed_time_zone": (5, 30), "default_to_unknown_time_zone": True},
+    # a parser that carries its own default dump format: dump_as_parsed given to parse() must still reproduce the input
+    {"name": "own_dump_format", "dump_format": "CCYY-MM-DDThh:mm:ss+hh:mm"},
 ]
 
 
